@@ -244,6 +244,35 @@ func (c *Ctx) c13Counts(b BK, decodeTarget types.Object) {
 				r.Bad("R13.3", wname, "counter-not-zero", c.Pos(ev.Pos), "the entry counter does not start at 0", shortTrace(p))
 				bad = true
 			}
+			// the walk continues after a successful callback and stops (reporting the error) after a failing one
+			var cbErr *pw.Val
+			for _, ev := range p.Events {
+				if ev.Kind == pw.EvCall && strings.HasPrefix(ev.Role, "DynParam:") && len(ev.Results) == 1 {
+					cbErr = ev.Results[0]
+				}
+				if ev.Kind == pw.EvLoopEnd && ev.Note == "break" {
+					r.Bad("R13.3", wname, "walk-stops-early", c.Pos(ev.Pos), "Walk leaves a loop early", shortTrace(p))
+					bad = true
+				}
+				if ev.Kind == pw.EvExit && ev.FnLit != nil && len(ev.Results) == 1 && cbErr != nil {
+					cont, known := p.Truth(ev.Results[0])
+					errNil := nilTri(p, cbErr)
+					if known && errNil == triTrue && !cont {
+						r.Bad("R13.3", wname, "walk-stops-early", c.Pos(ev.Pos), "the Range callback returns false after a successful callback: Walk visits only the first entry", shortTrace(p))
+						bad = true
+					}
+					if known && errNil == triFalse && cont {
+						r.Bad("R13.3", wname, "walk-continues-after-error", c.Pos(ev.Pos), "Walk continues after the callback failed (the documented contract is to fail on the first error)", shortTrace(p))
+						bad = true
+					}
+				}
+			}
+			if cbErr != nil && len(p.Ret) == 2 && nilTri(p, cbErr) == triFalse {
+				if isNil, known := p.NilFact(p.Ret[1]); known && isNil {
+					r.Bad("R13.3", wname, "walk-error-dropped", c.Pos(p.RetPos), "the callback's error is not returned by Walk", shortTrace(p))
+					bad = true
+				}
+			}
 			for _, g := range iterations(p) {
 				if !g.inner {
 					continue
